@@ -1,4 +1,5 @@
 import ShkModel.Model.Runner
+import ShkModel.Lemmas.Life
 /-!
 # C07 — termination, cleanup, no process left behind: the command runner
 
@@ -113,5 +114,68 @@ theorem old_runner_ignores_timeout :
 example : (run ⟨true, false, true⟩ [.eof, .stop]).hup = true := by decide
 example : (run ⟨true, false, true⟩ [.eof, .stop, .twoSec]).killed = true := by decide
 example : (run ⟨false, false, true⟩ [.eof, .cancel, .twoSec, .exit]).phase = .returned := by decide
+
+
+/-! ## The life cycle around the body: cleanups run once before and once after, whatever happens -/
+
+open Shk.Life
+
+/-- **shape of every run**: the initial cleanups of all actors, then — only if all of them
+succeeded — the body followed by the final cleanups of all actors; nothing else, in this order,
+for every outcome of the body, every outcome of the cleanups and every signal. -/
+theorem run_shape (s : Scenario) :
+    (runConduct s).1 = initEvs s.cleanups.length ++
+      (if allInitOk s then .body :: finalEvs s.cleanups.length else []) := by
+  unfold runConduct conduct
+  by_cases h : allInitOk s <;> simp [h]
+
+/-- **cleanup once before**: every actor's cleanup command runs exactly once before the body -/
+theorem init_cleanup_each_once (s : Scenario) (i : Nat) (hi : i < s.cleanups.length) :
+    (runConduct s).1.count (.initCleanup i) = 1 := by
+  rw [run_shape]
+  by_cases h : allInitOk s
+  · simp [h, List.count_append, List.count_cons, count_init, count_init_in_final, hi]
+  · simp [h, count_init, hi]
+
+/-- **… and once more after the last action**, provided the initial cleanups succeeded — also
+when the body failed, when a final cleanup of another actor fails, and under every signal -/
+theorem final_cleanup_each_once (s : Scenario) (i : Nat) (hi : i < s.cleanups.length) :
+    (runConduct s).1.count (.finalCleanup i) = if allInitOk s then 1 else 0 := by
+  rw [run_shape]
+  by_cases h : allInitOk s
+  · simp [h, List.count_append, List.count_cons, count_final, count_final_in_init, hi]
+  · simp [h, count_final_in_init]
+
+/-- a signal never changes which cleanups run -/
+theorem signal_never_skips_cleanup (s : Scenario) (g : Option Sig) :
+    (runConduct { s with sig := g }).1 = (runConduct s).1 := by
+  simp [runConduct, conduct, allInitOk, allFinalOk]
+
+/-- **exit status**: non-zero exactly when an initial cleanup failed, the body reported an error,
+a final cleanup failed, or the play was interrupted by SIGINT (SIGTERM and SIGHUP by themselves
+leave the status alone) -/
+theorem exit_status (s : Scenario) :
+    (runConduct s).2 = (!allInitOk s || s.bodyErr || !allFinalOk s || s.sig == some .int) := by
+  unfold runConduct conduct
+  by_cases h : allInitOk s <;> simp [h]
+
+theorem sigterm_alone_is_success (s : Scenario) (h1 : allInitOk s = true) (h2 : s.bodyErr = false)
+    (h3 : allFinalOk s = true) (h4 : s.sig = some .term) : (runConduct s).2 = false := by
+  rw [exit_status]; simp [h1, h2, h3, h4]
+
+/-- non-vacuity: two actors, SIGTERM, everything else fine: four cleanup runs around the body -/
+example : runConduct ⟨[⟨true, true⟩, ⟨true, true⟩], false, some .term⟩ =
+    ([.initCleanup 0, .initCleanup 1, .body, .finalCleanup 0, .finalCleanup 1], false) := by decide
+
+/-- an initial cleanup fails: no body, no second round, error -/
+example : runConduct ⟨[⟨true, true⟩, ⟨false, true⟩], false, none⟩ =
+    ([.initCleanup 0, .initCleanup 1], true) := by decide
+
+/-- witness for the interruptible-cleanup variant (the round-2 seed of C07): under a signal the
+second round is lost -/
+theorem interruptible_cleanup_loses_final :
+    (runConductInterruptibleCleanup ⟨[⟨true, true⟩], false, some .term⟩).1.count (.finalCleanup 0) = 0 := by
+  decide
+
 
 end Shk.C07
